@@ -242,6 +242,8 @@ impl Searcher {
     /// This prevents the "horizon effect" where the engine stops searching right
     /// before a capture sequence, leading to bad evaluations.
     fn search_until_quiet(&mut self, board: &Board, mut alpha: i32, beta: i32) -> i32 {
+        #[cfg(flounder_verif)]
+        let _verif_qply = self.verif.enter_quiescence();
         self.timer.increment_nodes();
         let currently_in_check = self.move_generator.is_in_check(board);
 
@@ -466,13 +468,38 @@ pub struct VerifSearchHooks {
     pub iterations_completed: std::cell::Cell<u64>,
     /// keys stored by `negamax` while the node deadline had already passed
     pub aborted_store_keys: Vec<u64>,
-    /// when true, every quiescence node's (board, in_check, move list) is recorded
+    /// when true, every quiescence node's (board, in_check, move list, plies below the horizon)
+    /// is recorded, provided it lies at least `record_min_qply` plies below the horizon
     pub record_qmoves: bool,
-    pub qmoves: Vec<(Board, bool, Vec<Move>)>,
+    pub record_min_qply: u32,
+    pub qmoves: Vec<(Board, bool, Vec<Move>, u32)>,
+    /// current nesting depth of the quiescence search (1 = the horizon node) and its maximum
+    pub qply: std::rc::Rc<std::cell::Cell<u32>>,
+    pub max_qply: std::rc::Rc<std::cell::Cell<u32>>,
+}
+
+/// Keeps the quiescence nesting depth while a quiescence node is on the stack.
+#[cfg(flounder_verif)]
+pub struct VerifQplyGuard(std::rc::Rc<std::cell::Cell<u32>>);
+
+#[cfg(flounder_verif)]
+impl Drop for VerifQplyGuard {
+    fn drop(&mut self) {
+        self.0.set(self.0.get().saturating_sub(1));
+    }
 }
 
 #[cfg(flounder_verif)]
 impl VerifSearchHooks {
+    fn enter_quiescence(&self) -> VerifQplyGuard {
+        let d = self.qply.get() + 1;
+        self.qply.set(d);
+        if d > self.max_qply.get() {
+            self.max_qply.set(d);
+        }
+        VerifQplyGuard(self.qply.clone())
+    }
+
     fn note_probe(&self, entry_depth: u8, depth: u8, bounds: &Bounds, eval: i32, alpha: i32, beta: i32) {
         self.tt_found.set(self.tt_found.get() + 1);
         if entry_depth < depth {
@@ -502,8 +529,9 @@ impl Searcher {
     }
 
     fn verif_record_qmoves(&mut self, board: &Board, in_check: bool, moves: &[Move]) {
-        if self.verif.record_qmoves {
-            self.verif.qmoves.push((*board, in_check, moves.to_vec()));
+        let qply = self.verif.qply.get();
+        if self.verif.record_qmoves && qply >= self.verif.record_min_qply {
+            self.verif.qmoves.push((*board, in_check, moves.to_vec(), qply));
         }
     }
 
@@ -540,6 +568,13 @@ impl Searcher {
     /// The predicate `negamax` evaluates below the root.
     pub fn verif_is_repetition_draw(&self, board: &Board) -> bool {
         self.is_draw_by_repetition(board)
+    }
+
+    /// The quiescence search alone, with an arbitrary window (no clock).
+    pub fn verif_quiesce(&mut self, board: &Board, alpha: i32, beta: i32) -> i32 {
+        self.timer.start(None);
+        self.verif.qply.set(0);
+        self.search_until_quiet(board, alpha, beta)
     }
 
     /// One full-window search at exactly `depth` (no shallower iterations, no clock).
